@@ -44,7 +44,7 @@ def NormalTransform(mean, sigma, key, N_copies=0):
     """
     if N_copies == 0:
         domain = DomainTuple.scalar_domain()
-        mean, sigma = np.asarray(mean, dtype=float), np.asarray(sigma, dtype=float)
+        mean, sigma = (float(value_reshaper(param, 0)) for param in (mean, sigma))
     else:
         domain = UnstructuredDomain(N_copies)
         mean, sigma = (makeField(domain, value_reshaper(param, N_copies)) for param in (mean, sigma))
